@@ -27,7 +27,7 @@ COMPONENTS = {"real": ["MemoryWorkflowStore / SqliteWorkflowStore append_event, 
               "stub": ["llama_index_instrumentation"], "sim": ["loop, clock, appender/subscriber tasks, recording adapter"]}
 ASSUMPTIONS = ["append order = order of append_event calls (each call is atomic between awaits)",
                "a subscriber whose cursor is at or past the last terminal event may wait forever (statement: it ends right after the first terminal event it yields)"]
-EXPECTED_PROBES = ["leg3-now-during-appends", "leg3-last-event-id-overrides", "leg3-204", "leg3-ndjson", "subscriber-waiting-during-append", "subscribe-after-terminal-appended", "events-after-terminal", "leg2-concurrent-stream-writes", "sqlite-poll-wakeup"]
+EXPECTED_PROBES = ["leg3-now-during-appends", "leg3-last-event-id-overrides", "leg3-204", "leg3-ndjson", "subscriber-waiting-during-append", "subscribe-after-terminal-appended", "events-after-terminal", "consumer-paused-between-events", "several-writer-store-objects", "leg2-concurrent-stream-writes", "sqlite-poll-wakeup"]
 LEVEL_TEXT = "Seeded exploration of append/subscribe interleavings with the cursor dimension enumerated per log, plus a differential check of stored vs. published order on the server stack."
 LEVEL_NOTE = "Trusted: simulator loop/clock, recording adapter."
 
@@ -53,11 +53,13 @@ def _leg1(tape):
     poll = 256 * T
     gaps = [0, 0, T, 16 * T, poll - T, poll, poll + T, 2 * poll]
     plan = [{"i": i, "app": tape.draw(n_app, "who"), "gap": tape.choice(gaps, "gap"), "term": i == term_at, "noise": tape.chance(25, 100, "noise")} for i in range(n)]
-    subs = [{"cursor": c, "start": tape.choice(gaps + [3 * poll, 5 * poll], "sub.start") * tape.rng_int(0, 3, "sub.mul")} for c in range(-1, n)]
+    # "pause": what the consumer awaits between taking one event and asking for the next (an SSE writer, a slow client)
+    subs = [{"cursor": c, "start": tape.choice(gaps + [3 * poll, 5 * poll], "sub.start") * tape.rng_int(0, 3, "sub.mul"),
+             "pause": tape.choice([0, 0, 0, T, 16 * T, poll], "sub.pause")} for c in range(-1, n)]
     td = TmpDir()
 
-    async def one_backend(world, name, store, writer=None):
-        writer = writer or store
+    async def one_backend(world, name, store, writers=None):
+        writers = writers or [store]
         from llama_agents.client.protocol.serializable_events import EventEnvelopeWithMetadata
         from workflows.events import StopEvent
         rid = "r-" + name
@@ -66,6 +68,7 @@ def _leg1(tape):
         results = {}
 
         async def appender(a):
+            writer = writers[a % len(writers)]      # each appender task is one writing process (its own store object, if several)
             for p in plan:
                 if p["app"] != a:
                     continue
@@ -94,6 +97,9 @@ def _leg1(tape):
                     ident = se.event.value.get("uid") if se.event.type == "E0" else se.event.value.get("result")
                     out.append((se.sequence, ident))
                     world.trace.log("yield", be=name, cursor=sb["cursor"], seq=se.sequence)
+                    if sb["pause"]:
+                        world.probe("consumer-paused-between-events")
+                        await asyncio.sleep(sb["pause"])
                 results[sb["cursor"]]["ended"] = True
             except asyncio.CancelledError:
                 raise
@@ -105,7 +111,8 @@ def _leg1(tape):
         tasks = apps + [asyncio.ensure_future(subscriber(sb)) for sb in subs]
         await asyncio.gather(*apps)
         # every subscriber has started by then + two full poll intervals for stores that only notice appends by polling
-        await asyncio.sleep(max(sb["start"] for sb in subs) + 2.5 * poll)
+        # ... + the time the slowest consumer needs for its pauses
+        await asyncio.sleep(max(sb["start"] for sb in subs) + 2.5 * poll + max(sb["pause"] for sb in subs) * (n + 2))
         log = [(e.sequence, e.event.value.get("uid") if e.event.type == "E0" else e.event.value.get("result")) for e in await store.query_events(rid)]
         for t in tasks:
             t.cancel()
@@ -141,12 +148,15 @@ def _leg1(tape):
         from llama_agents.server._store.sqlite.sqlite_workflow_store import SqliteWorkflowStore
         rm, lm = await one_backend(world, "memory", MemoryWorkflowStore())
         reader = SqliteWorkflowStore(td.db(), poll_interval=256 * T)
-        other = None
+        others = None
         if world.tape.chance(40, 100, "second-store-object"):
-            # appends come from another store object on the same file (another replica / process): only polling sees them
-            other = SqliteWorkflowStore(td.db(), poll_interval=256 * T)
+            # appends come from other store objects on the same file (other replicas / processes): only polling sees them; with
+            # several appender tasks each one writes through its own store object
+            others = [SqliteWorkflowStore(td.db(), poll_interval=256 * T) for _ in range(1 + world.tape.draw(2, "writer-objects"))]
             world.probe("sqlite-poll-wakeup")
-        rs, ls = await one_backend(world, "sqlite", reader, writer=other)
+            if len(others) > 1 and n_app > 1:
+                world.probe("several-writer-store-objects")
+        rs, ls = await one_backend(world, "sqlite", reader, writers=others)
         # same-instant ties between appenders are ordered by tape draws, which differ between the two sub-runs: the two
         # backends are comparable only when both logs came out in the same append order
         if not world.violations and lm == ls and rm != rs:
